@@ -272,7 +272,7 @@ func main() {
 			"Restricted products use the pattern predicates %v (hash-* = one bit of a hash over every field of the element as the filter sees it) as (p,p,p), p on one kind with nil or reject-all on the others, and mixed triples ('ext', only with a pattern-filtered kind not skipped) and 12 triples of the first six predicates ('base'): "+
 			"family ext = X,Y,Z x ext x 8 flag sets x procs (quick: Y procs 1,3; Z procs 1); grouped = files of 14 and 45 blocks (thorough also 120) with 0-6 primitive groups per block (ids aligned so that bit2/not-bit2 reject one whole group and accept the next, mod3-* give reject-accept-accept runs across group and block borders) x (ext+base) x 8 x procs x consumer (14 blocks: eager (quick: procs 1,3), and lazy with one decoder; 45 blocks: lazy = lets the decoders run as far ahead as the pipeline allows after the first object and at the middle; thorough: both everywhere); "+
 			"edges = one file of absent / present-but-empty / delimiter-only tag, node and member lists, empty dense group, empty group, empty block, changeset groups, >=128 tags/nodes/members, ids 0, negative, 2^31, 2^40+1, 2^53+1, empty/blank/non-ASCII/long strings x (ext+base) x 8 x procs {1,3} (thorough: all); wide3 = 3-byte string ids x (ext+base) x 8 (quick: flags 0,1,6) x procs 1; "+
-			"big = a block of 8001 nodes; nohdr = X and the 14-block file without header block; procs = decoder counts 0,-1,4,5,6,10,11,12,16,34 x 4 triples x flags {0,1,6} on X and the 14-block file (lazy on the 45-block file for 0,4,5,6,10,11); stop = consumer closes the scanner after half of the expected objects and keeps them; late-config = Header() is called first and the skip flags and filters are set afterwards, on an input that delivers its data blocks only once the options are set; twin = two scanners with different predicates on the same bytes at the same time. "+
+			"params = four blocks with non-default granularity, lat/lon offsets and date granularity each (after the groups, every other block before them) x (ext+base) x 8 x procs; big = a block of 8001 nodes; nohdr = X and the 14-block file without header block; procs = decoder counts 0,-1,4,5,6,10,11,12,16,34 x 4 triples x flags {0,1,6} on X and the 14-block file (lazy on the 45-block file for 0,4,5,6,10,11); stop = consumer closes the scanner after half of the expected objects and keeps them; late-config = Header() is called first and the skip flags and filters are set afterwards, on an input that delivers its data blocks only once the options are set; twin = two scanners with different predicates on the same bytes at the same time. "+
 			"Objects are compared when returned and again after the scan. non-trivial = at least one element rejected and at least one accepted; distinct = (file,flags,preds,procs,consumer,twin)", np, files.PredNames[:np], procs, files.PredNames[7:]))
 		r.Assume("predicates are pure functions of the element's content and never retain their argument")
 		r.Note("not judged: what happens when the consumer writes into a returned object (append to its Tags etc.) - the property only speaks about the scanner modifying returned objects; filters that retain or modify their argument; skip flags or filters changed while a scan runs")
@@ -322,9 +322,10 @@ func main() {
 		fs["E-edge-elements"] = files.Edges()
 		fs["W3-three-byte-string-ids"] = files.Wide3()
 		fs["B-8001-nodes-block"] = files.Big()
+		fs["P-block-parameters"] = files.Params()
 		fs["X-no-header"] = files.NoHeader(fs["X-three-blocks"])
 		fs["G-14-no-header"] = files.NoHeader(fs["G-14-blocks-grouped"])
-		names = append(names, "G-14-blocks-grouped", "H-45-blocks-grouped", "E-edge-elements", "W3-three-byte-string-ids", "B-8001-nodes-block", "X-no-header", "G-14-no-header")
+		names = append(names, "G-14-blocks-grouped", "H-45-blocks-grouped", "E-edge-elements", "W3-three-byte-string-ids", "B-8001-nodes-block", "X-no-header", "G-14-no-header", "P-block-parameters")
 		if !r.Quick() {
 			fs["K-120-blocks-grouped"] = files.Grouped(120)
 			names = append(names, "K-120-blocks-grouped")
@@ -379,6 +380,8 @@ func main() {
 			restricted("grouped", "K-120-blocks-grouped", true, procs, []int{eager, lazy})
 		}
 		restricted("wide3", "W3-three-byte-string-ids", true, []int{1}, []int{eager})
+		// blocks with their own granularity, offsets and date granularity
+		restricted("params", "P-block-parameters", true, quickProcs, []int{eager})
 		few := [][3]int{{3, 3, 3}, {4, 5, 7}, {9, 10, 2}, {0, 0, 0}}
 		// decoder counts: < 1 means one decoder; the channel capacities 10/n are 2 for 4 and 5,
 		// 1 for 6..10 and 0 (unbuffered) from 11
